@@ -700,7 +700,9 @@ def _binop(op, a, b, inplace=False):
     except TypeError:
         return NotImplemented
     uf = _UF[op]
-    if not sa and not sb:
+    exact_float = CTX.exact and (op == 'truediv' or (da is not None and da.kind == 'f') or (db is not None and db.kind == 'f')
+                                 or isinstance(ca, float) or isinstance(cb, float)) and op not in E.CMP
+    if not sa and not sb and not exact_float:
         ta = ca.astype(da) if da is not None else ca
         tb = cb.astype(db) if db is not None else cb
         with rnp.errstate(all='ignore'):
@@ -779,6 +781,8 @@ def _nb_result(op, ta, tb):
     if r is None:
         import numba
         from numba.core.registry import cpu_target
+        if not _NB_CACHE:
+            cpu_target.typing_context.refresh()
         sig = cpu_target.typing_context.resolve_function_type(_NB_OPS[op], (ta, tb), {})
         if sig is None:
             raise ShimUnsupported(f'numba cannot type {op}({ta}, {tb})')
